@@ -370,7 +370,7 @@ def run(ctx):
     setup()
     # measured: one get_cert miss costs 1.2 ms and vmc.explore.bfs replays every frontier history from scratch,
     # so the full 12-action alphabet is explored to depth 4 (quick) / 5 (thorough, 39 k states); thorough adds a
-    # depth-6 search over a reduced alphabet (4 request shapes, 3 custom certificates)
+    # depth-7 search over a reduced alphabet (4 request shapes, 3 custom certificates)
     depth = ctx.pick(4, 5)
     ctx.bounds = {"bfs_depth": depth, "STORE_CAP_for_bfs": CAP, "request_shapes": ["%s / %s" % (cn, [str(x.value) for x in sans]) for cn, sans in REQUESTS],
                   "custom_certificates": [registered_names_of_custom(i) for i in range(len(CUSTOM_SPECS))],
@@ -380,11 +380,11 @@ def run(ctx):
         ctx.cap("max_states")
     ctx.log("bfs (full alphabet, depth %d): %d states" % (depth, states))
     if ctx.thorough:
-        ctx.bounds["bfs2"] = {"depth": 6, "request_shapes": DEEP_REQS, "custom_certificates": DEEP_CUSTOMS}
-        states2, capped = explore.bfs(Spec(CAP, DEEP_REQS, DEEP_CUSTOMS), 6, ctx.tally, log=ctx.log)
+        ctx.bounds["bfs2"] = {"depth": 7, "request_shapes": DEEP_REQS, "custom_certificates": DEEP_CUSTOMS}
+        states2, capped = explore.bfs(Spec(CAP, DEEP_REQS, DEEP_CUSTOMS), 7, ctx.tally, log=ctx.log)
         if capped:
             ctx.cap("max_states")
-        ctx.log("bfs (reduced alphabet, depth 6): %d states" % states2)
+        ctx.log("bfs (reduced alphabet, depth 7): %d states" % states2)
     linear(ctx.tally, 130)
     ctx.log("linear run done")
 
